@@ -33,6 +33,68 @@ func (x *xorWriter) Write(p []byte) (int, error) {
 func (x *xorWriter) Close() error      { return nil }
 func (x *xorWriter) Reset(w io.Writer) { x.w = w }
 
+// xorHdrWriter is xorWriter with a stream header: Reset writes 0xA5 and a serial number to the new destination
+// at once. xorHdrReader expects and strips it.
+type xorHdrWriter struct {
+	w io.Writer
+	n byte
+}
+
+func (x *xorHdrWriter) Write(p []byte) (int, error) {
+	q := make([]byte, len(p))
+	for i, b := range p {
+		q[i] = b ^ 0x5A ^ x.n // the stream is keyed by its header
+	}
+	return x.w.Write(q)
+}
+func (x *xorHdrWriter) Close() error { return nil }
+func (x *xorHdrWriter) Reset(w io.Writer) {
+	x.w = w
+	x.n++
+	_, _ = w.Write([]byte{0xA5, x.n})
+}
+
+type xorHdrReader struct {
+	r    io.Reader
+	read bool
+	key  byte
+}
+
+func (x *xorHdrReader) Read(p []byte) (int, error) {
+	if !x.read {
+		var h [2]byte
+		if _, err := io.ReadFull(x.r, h[:]); err != nil {
+			return 0, err
+		}
+		if h[0] != 0xA5 {
+			return 0, fmt.Errorf("vxorh: stream does not start with its header (%02x %02x)", h[0], h[1])
+		}
+		x.read, x.key = true, h[1]
+	}
+	n, err := x.r.Read(p)
+	for i := 0; i < n; i++ {
+		p[i] ^= 0x5A ^ x.key
+	}
+	return n, err
+}
+func (x *xorHdrReader) Reset(r io.Reader) error { x.r, x.read = r, false; return nil }
+
+func XorHdrBytes(in []byte, _ uint64) ([]byte, error) {
+	if len(in) < 2 || in[0] != 0xA5 {
+		return nil, fmt.Errorf("vxorh: stream does not start with its header")
+	}
+	out := make([]byte, len(in)-2)
+	for i, b := range in[2:] {
+		out[i] = b ^ 0x5A ^ in[1]
+	}
+	return out, nil
+}
+
+type freshXorHdr struct{}
+
+func (freshXorHdr) Compressor() mcap.ResettableWriteCloser { return &xorHdrWriter{} }
+func (freshXorHdr) Compression() mcap.CompressionFormat    { return mcap.CompressionFormat(wl.CustomCompressionHdr) }
+
 // freshXor is a CustomCompressor written as a factory: every Compressor() call returns a new instance.
 type freshXor struct{}
 
@@ -80,6 +142,12 @@ func Options(k wl.Config) *mcap.WriterOptions {
 		if k.FreshCompressor {
 			o.Compressor = freshXor{}
 		}
+		if k.HeaderCompressor {
+			o.Compressor = mcap.NewCustomCompressor(mcap.CompressionFormat(wl.CustomCompressionHdr), &xorHdrWriter{})
+			if k.FreshCompressor {
+				o.Compressor = freshXorHdr{}
+			}
+		}
 	case "lz4-nochecksum":
 		// what writers in other languages emit: an lz4 frame without the optional content checksum,
 		// so that the MCAP chunk CRC is the only integrity check
@@ -96,7 +164,7 @@ func Options(k wl.Config) *mcap.WriterOptions {
 }
 
 func Decompressors() map[mcap.CompressionFormat]mcap.ResettableReader {
-	return map[mcap.CompressionFormat]mcap.ResettableReader{mcap.CompressionFormat(wl.CustomCompression): &xorReader{}}
+	return map[mcap.CompressionFormat]mcap.ResettableReader{mcap.CompressionFormat(wl.CustomCompression): &xorReader{}, mcap.CompressionFormat(wl.CustomCompressionHdr): &xorHdrReader{}}
 }
 
 func kvMap(in []wl.KV) map[string]string {
